@@ -721,12 +721,9 @@ class Fxp():
                     val, signed, n_word, _ = utils.str2num(val, self.signed, self.n_word, None, return_sizes=True)
                     n_frac = self.n_frac
 
-                if raw:
-                    vdtype = None   # raw (integer) values keep their own type: float would lose bits of wide codes
-                elif n_frac is not None and n_frac == 0:
-                    vdtype = int
-                else:
-                    vdtype = float
+                # converted value(s) keep their own type: float would lose bits of wide raw codes, and int would
+                # drop the fractional part of decimal strings before rounding
+                vdtype = None
 
         elif isinstance(val, (list, tuple, str)):
             # if val is a str(s), convert to number(s)
